@@ -2769,6 +2769,7 @@ def big_plan(rng, tier):
         for st in ("flat", "rules", "groups"):
             for cnt in (33000, 66000):
                 plan.append((st, (cnt if st != "groups" else cnt // 2) + rng.range(0, 1500), 4 if cnt < 60000 else 5))
+        plan.append(("groups", 51000 + rng.range(0, 1500), 5))      # > 100 000 generated rules: internal names of six digits
     return plan
 
 
